@@ -34,6 +34,7 @@ func init() {
 type c18bEv struct {
 	slot int
 	kind byte // A F P R V
+	at   int // ms since the start at which the harness really applied it
 }
 
 type c18bScn struct {
@@ -63,8 +64,9 @@ func c18bRun(s *c18bScn) {
 	start := time.Now()
 	d := v.StartDownload(c18bSize)
 	k := 0
-	for _, e := range s.evs {
+	for i, e := range s.evs {
 		c18SleepUntil(start, e.slot)
+		s.evs[i].at = int(time.Since(start) / time.Millisecond)
 		switch e.kind {
 		case 'A':
 			k++
@@ -119,11 +121,11 @@ func genPauseDown(c *ctx) {
 		sort.SliceStable(evs, func(i, j int) bool { return evs[i].slot < evs[j].slot })
 		scns = append(scns, &c18bScn{family: family, horizon: horizon, evs: evs})
 	}
-	A := func(slot int) c18bEv { return c18bEv{slot, 'A'} }
-	F := func(slot int) c18bEv { return c18bEv{slot, 'F'} }
-	P := func(slot int) c18bEv { return c18bEv{slot, 'P'} }
-	R := func(slot int) c18bEv { return c18bEv{slot, 'R'} }
-	V := func(slot int) c18bEv { return c18bEv{slot, 'V'} }
+	A := func(slot int) c18bEv { return c18bEv{slot: slot, kind: 'A'} }
+	F := func(slot int) c18bEv { return c18bEv{slot: slot, kind: 'F'} }
+	P := func(slot int) c18bEv { return c18bEv{slot: slot, kind: 'P'} }
+	R := func(slot int) c18bEv { return c18bEv{slot: slot, kind: 'R'} }
+	V := func(slot int) c18bEv { return c18bEv{slot: slot, kind: 'V'} }
 	// every chain of 100 ms sleeps is anchored at a slot = 0 mod 10 (frames arrive there, reads and the poll start
 	// there); pauses, resumes and the disk event come at 5 mod 10, 50 ms away from every wake-up
 	rep := c.pick(1, 3)
@@ -221,6 +223,7 @@ func genPauseDown(c *ctx) {
 		for i, s := range scns {
 			cp := *s
 			cp.log = nil
+			cp.evs = append([]c18bEv(nil), s.evs...)
 			wave[i] = &cp
 			alts[i] = append(alts[i], &cp)
 		}
@@ -268,17 +271,17 @@ func genPauseDown(c *ctx) {
 			if e.kind != 'P' {
 				continue
 			}
-			end := s.horizon
+			end := s.horizon * c18Unit
 			for _, f := range s.evs[i+1:] {
 				if f.kind == 'R' {
-					end = f.slot
+					end = f.at
 					break
 				}
 			}
 			for _, l := range s.log {
 				parts := strings.Split(l, ":")
 				ms, _ := strconv.Atoi(parts[0])
-				if (parts[1] == "A" || parts[1] == "G" || parts[1] == "Z") && ms > e.slot*c18Unit+150 && ms < end*c18Unit-20 {
+				if (parts[1] == "A" || parts[1] == "G" || parts[1] == "Z") && ms > e.at+150 && ms < end-20 {
 					c.violate("pausedown:ack-while-paused", "an acknowledgement was written while pausing",
 						fmt.Sprintf("%s schedule %s log %s", s.family, s.sched(), measured))
 				}
